@@ -403,16 +403,11 @@ func c15Recovery(c *Check) {
 	snapStatus := p.ConstVal("raftpb", "MsgSnapStatus")
 	// --- C15.H: a heartbeat response un-pauses and re-probes
 	okUnpause, okActive := false, false
-	for _, st := range p.StoresTo(pausedF) {
-		if st.Fn == stepLeader && !st.Whole && arm(st.Instr, hbResp) {
-			v := fi.Sym(st.Val)
-			if v.K == KConst && v.C != nil && v.C.String() == "false" {
-				okUnpause = true
-			}
+	for _, as := range p.ArmStores(stepLeader, func(in ssa.Instruction) bool { return arm(in, hbResp) }) {
+		if as.Field == pausedF && as.Val.K == KConst && as.Val.C != nil && as.Val.C.String() == "false" {
+			okUnpause = true
 		}
-	}
-	for _, st := range p.StoresTo(recentF) {
-		if st.Fn == stepLeader && !st.Whole && arm(st.Instr, hbResp) {
+		if as.Field == recentF && as.Val.K == KConst && as.Val.C != nil && as.Val.C.String() == "true" {
 			okActive = true
 		}
 	}
